@@ -273,16 +273,215 @@ struct Stats {
     explicit_removed: u64,
     added: u64,
     removed: u64,
+    pre_evictions: u64,
+}
+impl Stats {
+    fn merge(&mut self, o: &Stats) {
+        self.auto_removed += o.auto_removed;
+        self.perm_survived += o.perm_survived;
+        self.evict_record += o.evict_record;
+        self.evict_peer += o.evict_peer;
+        self.explicit_removed += o.explicit_removed;
+        self.added += o.added;
+        self.removed += o.removed;
+    }
 }
 
-/// One history. Returns Some((signature, what)) on the first violation.
-fn run_history(w: &World, ops: &[Op], stats: &mut Stats, trace: &mut Vec<Value>) -> Option<(String, String)> {
+/// Result of judging one step under a hypothesis.
+struct StepOut {
+    explicit: BTreeSet<(usize, usize)>,
+    d: Stats,
+}
+
+/// Judge one step: fold `events` over `before` and compare with `after`.
+///
+/// `pre_evicted`: hypothesis that the whole record of this peer was silently evicted *before* the
+/// operation's own effects (only tried by the caller when the store was already above
+/// `peer_capacity` before the step, i.e. when a capacity eviction is due at any moment).
+#[allow(clippy::too_many_arguments)]
+fn judge_step(
+    w: &World,
+    op: &Op,
+    ret: Option<bool>,
+    before: &Contents,
+    after: &Contents,
+    events: &[Event],
+    explicit_in: &BTreeSet<(usize, usize)>,
+    pre_evicted: Option<usize>,
+) -> Result<StepOut, (String, String)> {
+    let mut explicit = explicit_in.clone();
+    let mut d = Stats::default();
+    let mut base = before.clone();
+    if let Some(x) = pre_evicted {
+        if base.remove(&x).is_some_and(|s| !s.is_empty()) {
+            d.evict_peer += 1;
+        }
+        explicit.retain(|(p, _)| *p != x);
+    }
+    // ---- fold the events over `base`
+    let mut running = base.clone();
+    let mut n_added = 0;
+    let mut n_removed = 0;
+    for ev in events {
+        match ev {
+            Event::PeerAddressAdded { peer_id, address, is_permanent } => {
+                let (Some(pi), Some(ai)) = (w.peers.iter().position(|x| x == peer_id), w.addrs.iter().position(|x| x == address)) else {
+                    return Err(("event-names-unknown-pair".into(), format!("{ev:?}")));
+                };
+                n_added += 1;
+                d.added += 1;
+                if !running.entry(pi).or_default().insert(ai) {
+                    return Err(("added-event-for-present-address".into(), format!("{ev:?} but the pair was already stored")));
+                }
+                let want_perm = matches!(op, Op::Add(p, a) if *p == pi && *a == ai);
+                if *is_permanent != want_perm {
+                    return Err(("added-event-permanent-flag".into(), format!("{ev:?}, expected is_permanent={want_perm}")));
+                }
+                if want_perm {
+                    explicit.insert((pi, ai));
+                } else {
+                    explicit.remove(&(pi, ai));
+                }
+            }
+            Event::PeerAddressRemoved { peer_id, address } => {
+                let (Some(pi), Some(ai)) = (w.peers.iter().position(|x| x == peer_id), w.addrs.iter().position(|x| x == address)) else {
+                    return Err(("event-names-unknown-pair".into(), format!("{ev:?}")));
+                };
+                n_removed += 1;
+                d.removed += 1;
+                if !running.get_mut(&pi).map(|s| s.remove(&ai)).unwrap_or(false) {
+                    return Err(("removed-event-for-absent-address".into(), format!("{ev:?} but the pair was not stored")));
+                }
+                if op.is_swarm_event() {
+                    d.auto_removed += 1;
+                    if explicit.contains(&(pi, ai)) {
+                        return Err((
+                            "permanent-address-removed-by-swarm-event".into(),
+                            format!("explicitly added pair (peer {pi}, addr {ai}) was removed automatically"),
+                        ));
+                    }
+                } else {
+                    d.explicit_removed += 1;
+                }
+                explicit.remove(&(pi, ai));
+            }
+        }
+    }
+
+    // ---- explicit API results
+    match op {
+        Op::Add(p, a) => {
+            let was = base.get(p).is_some_and(|s| s.contains(a));
+            if !after.get(p).is_some_and(|s| s.contains(a)) {
+                return Err(("explicit-add-not-stored".into(), "pair absent right after add_address".into()));
+            }
+            if ret != Some(n_added == 1) || n_removed != 0 {
+                return Err(("added-event-vs-return".into(), format!("returned {ret:?} with {n_added} Added / {n_removed} Removed events")));
+            }
+            if ret == Some(was) {
+                return Err(("add-return-vs-novelty".into(), format!("returned {ret:?}, pair stored before: {was}")));
+            }
+            explicit.insert((*p, *a));
+        }
+        Op::Remove(p, a) => {
+            let was = base.get(p).is_some_and(|s| s.contains(a));
+            if after.get(p).is_some_and(|s| s.contains(a)) {
+                return Err(("explicit-remove-ineffective".into(), "pair still stored after remove_address".into()));
+            }
+            if ret != Some(n_removed == 1) || n_added != 0 {
+                return Err(("removed-event-vs-return".into(), format!("returned {ret:?} with {n_removed} Removed / {n_added} Added events")));
+            }
+            if ret != Some(was) {
+                return Err(("remove-return-vs-presence".into(), format!("returned {ret:?}, pair stored before: {was}")));
+            }
+        }
+        Op::InsertData(_) | Op::TakeData(_) | Op::Unrelated(..) => {
+            if n_added + n_removed != 0 {
+                return Err(("event-from-unrelated-operation".into(), format!("{} events", n_added + n_removed)));
+            }
+        }
+        _ => {}
+    }
+
+    // ---- folded contents vs observed contents
+    let folded_peers: usize = {
+        // peers that have a record according to the fold: any address, or still observed (data-only records)
+        let mut s: BTreeSet<usize> = running.iter().filter(|(_, v)| !v.is_empty()).map(|(k, _)| *k).collect();
+        s.extend(after.keys().copied());
+        s.len()
+    };
+    let peer_overflow = folded_peers.saturating_sub(w.peer_cap);
+    let mut vanished_peers = 0usize;
+    for (pi, want) in &running {
+        match after.get(pi) {
+            Some(got) => {
+                if let Some(extra) = got.difference(want).next() {
+                    return Err(("address-appeared-without-added-event".into(), format!("peer {pi} addr {extra} stored without an event")));
+                }
+                let vanished: Vec<usize> = want.difference(got).copied().collect();
+                let allowed = want.len().saturating_sub(w.record_cap);
+                if vanished.len() > allowed {
+                    return Err((
+                        "address-vanished-without-removed-event".into(),
+                        format!("peer {pi} lost {vanished:?} silently; capacity overflow explains only {allowed}"),
+                    ));
+                }
+                d.evict_record += vanished.len() as u64;
+                for a in vanished {
+                    explicit.remove(&(*pi, a));
+                }
+            }
+            None => {
+                if !want.is_empty() {
+                    vanished_peers += 1;
+                    for a in want {
+                        explicit.remove(&(*pi, *a));
+                    }
+                }
+            }
+        }
+    }
+    for (pi, got) in after {
+        if !running.contains_key(pi) && !got.is_empty() {
+            return Err(("address-appeared-without-added-event".into(), format!("peer {pi} appeared with {got:?} without events")));
+        }
+    }
+    if vanished_peers > peer_overflow {
+        return Err((
+            "peer-vanished-without-events".into(),
+            format!("{vanished_peers} peer record(s) with addresses disappeared silently; peer capacity overflow explains only {peer_overflow}"),
+        ));
+    }
+    d.evict_peer += vanished_peers as u64;
+
+    // ---- permanent addresses named by a failure and still there
+    if op.is_failure_event() && w.remove_on_err {
+        let named: Vec<(usize, usize)> = match op {
+            Op::Established { p, dialer: true, failed, .. } => failed.iter().map(|a| (*p, *a)).collect(),
+            Op::FailTransport { p: Some(p), addrs } => addrs.iter().map(|a| (*p, *a)).collect(),
+            Op::FailWrongPeer { p, a, .. } | Op::FailOther { p, a, kind: 0 } => vec![(*p, *a)],
+            _ => vec![],
+        };
+        for (p, a) in named {
+            if explicit.contains(&(p, a)) && after.get(&p).is_some_and(|s| s.contains(&a)) {
+                d.perm_survived += 1;
+            }
+        }
+    }
+    explicit.retain(|(p, a)| after.get(p).is_some_and(|s| s.contains(a)));
+    Ok(StepOut { explicit, d })
+}
+
+/// One history. Returns Some((signature, what)) on the first violation that invalidates the rest of
+/// the history; capacity violations (pure state invariants) are pushed to `soft` and the history goes on,
+/// so that a capacity defect does not shadow the other oracles.
+fn run_history(w: &World, ops: &[Op], stats: &mut Stats, trace: &mut Vec<Value>, soft: &mut Vec<(String, String, usize)>) -> Option<(String, String)> {
     let cfg = Config::default()
         .set_record_capacity(NonZeroUsize::new(w.record_cap).unwrap())
         .set_peer_capacity(NonZeroUsize::new(w.peer_cap).unwrap())
         .set_remove_addr_on_dial_error(w.remove_on_err);
     let mut b: B = Behaviour::new(MemoryStore::new(cfg));
-    // model: contents as observed after the previous step + who was added explicitly + data flag
+    // model: contents as observed after the previous step + who was added explicitly
     let mut contents = Contents::new();
     let mut explicit: BTreeSet<(usize, usize)> = BTreeSet::new();
     for (step, op) in ops.iter().enumerate() {
@@ -295,168 +494,37 @@ fn run_history(w: &World, ops: &[Op], stats: &mut Stats, trace: &mut Vec<Value>)
         };
         trace.push(json!({"op": op.to_json(), "ret": ret, "events": events.iter().map(|e| format!("{e:?}")).collect::<Vec<_>>(), "after": format!("{after:?}")}));
 
-        // ---- fold the events over `before`
-        let mut running = before.clone();
-        let mut n_added = 0;
-        let mut n_removed = 0;
-        for ev in &events {
-            match ev {
-                Event::PeerAddressAdded { peer_id, address, is_permanent } => {
-                    let (Some(pi), Some(ai)) = (w.peers.iter().position(|x| x == peer_id), w.addrs.iter().position(|x| x == address)) else {
-                        return Some(("event-names-unknown-pair".into(), format!("step {step} {op:?}: {ev:?}")));
-                    };
-                    n_added += 1;
-                    stats.added += 1;
-                    if !running.entry(pi).or_default().insert(ai) {
-                        return Some(("added-event-for-present-address".into(), format!("step {step} {op:?}: {ev:?} but the pair was already stored")));
-                    }
-                    let want_perm = matches!(op, Op::Add(p, a) if *p == pi && *a == ai);
-                    if *is_permanent != want_perm {
-                        return Some(("added-event-permanent-flag".into(), format!("step {step} {op:?}: {ev:?}, expected is_permanent={want_perm}")));
-                    }
-                    if want_perm {
-                        explicit.insert((pi, ai));
-                    } else {
-                        explicit.remove(&(pi, ai));
-                    }
-                }
-                Event::PeerAddressRemoved { peer_id, address } => {
-                    let (Some(pi), Some(ai)) = (w.peers.iter().position(|x| x == peer_id), w.addrs.iter().position(|x| x == address)) else {
-                        return Some(("event-names-unknown-pair".into(), format!("step {step} {op:?}: {ev:?}")));
-                    };
-                    n_removed += 1;
-                    stats.removed += 1;
-                    if !running.get_mut(&pi).map(|s| s.remove(&ai)).unwrap_or(false) {
-                        return Some(("removed-event-for-absent-address".into(), format!("step {step} {op:?}: {ev:?} but the pair was not stored")));
-                    }
-                    if op.is_swarm_event() {
-                        stats.auto_removed += 1;
-                        if explicit.contains(&(pi, ai)) {
-                            return Some((
-                                "permanent-address-removed-by-swarm-event".into(),
-                                format!("step {step} {op:?}: explicitly added pair (peer {pi}, addr {ai}) was removed automatically"),
-                            ));
-                        }
-                    } else {
-                        stats.explicit_removed += 1;
-                    }
-                    explicit.remove(&(pi, ai));
+        let mut res = judge_step(w, op, ret, &before, &after, &events, &explicit, None);
+        if res.is_err() && before.len() > w.peer_cap {
+            // The store was already above peer_capacity (reported separately as
+            // `peer-capacity-exceeded`): a capacity eviction of any one record may precede the
+            // operation's own effects. Accept the step if one such eviction explains it.
+            for x in before.keys() {
+                if let Ok(o) = judge_step(w, op, ret, &before, &after, &events, &explicit, Some(*x)) {
+                    res = Ok(o);
+                    stats.pre_evictions += 1;
+                    break;
                 }
             }
         }
-
-        // ---- explicit API results
-        match op {
-            Op::Add(p, a) => {
-                let was = before.get(p).is_some_and(|s| s.contains(a));
-                if !after.get(p).is_some_and(|s| s.contains(a)) {
-                    return Some(("explicit-add-not-stored".into(), format!("step {step} {op:?}: pair absent right after add_address")));
-                }
-                if ret != Some(n_added == 1) || n_removed != 0 {
-                    return Some(("added-event-vs-return".into(), format!("step {step} {op:?}: returned {ret:?} with {n_added} Added / {n_removed} Removed events")));
-                }
-                if ret == Some(was) {
-                    return Some(("add-return-vs-novelty".into(), format!("step {step} {op:?}: returned {ret:?}, pair stored before: {was}")));
-                }
-                explicit.insert((*p, *a));
-            }
-            Op::Remove(p, a) => {
-                let was = before.get(p).is_some_and(|s| s.contains(a));
-                if after.get(p).is_some_and(|s| s.contains(a)) {
-                    return Some(("explicit-remove-ineffective".into(), format!("step {step} {op:?}: pair still stored after remove_address")));
-                }
-                if ret != Some(n_removed == 1) || n_added != 0 {
-                    return Some(("removed-event-vs-return".into(), format!("step {step} {op:?}: returned {ret:?} with {n_removed} Removed / {n_added} Added events")));
-                }
-                if ret != Some(was) {
-                    return Some(("remove-return-vs-presence".into(), format!("step {step} {op:?}: returned {ret:?}, pair stored before: {was}")));
-                }
-            }
-            Op::InsertData(_) | Op::TakeData(_) | Op::Unrelated(..) => {
-                if n_added + n_removed != 0 {
-                    return Some(("event-from-unrelated-operation".into(), format!("step {step} {op:?}: {} events", n_added + n_removed)));
-                }
-            }
-            _ => {}
-        }
-
-        // ---- folded contents vs observed contents
-        let folded_peers: usize = {
-            // peers that have a record according to the fold: any address, or still observed (data-only records)
-            let mut s: BTreeSet<usize> = running.iter().filter(|(_, v)| !v.is_empty()).map(|(k, _)| *k).collect();
-            s.extend(after.keys().copied());
-            s.len()
-        };
-        let peer_overflow = folded_peers.saturating_sub(w.peer_cap);
-        let mut vanished_peers = 0usize;
-        for (pi, want) in &running {
-            match after.get(pi) {
-                Some(got) => {
-                    if let Some(extra) = got.difference(want).next() {
-                        return Some(("address-appeared-without-added-event".into(), format!("step {step} {op:?}: peer {pi} addr {extra} stored without an event")));
-                    }
-                    let vanished: Vec<usize> = want.difference(got).copied().collect();
-                    let allowed = want.len().saturating_sub(w.record_cap);
-                    if vanished.len() > allowed {
-                        return Some((
-                            "address-vanished-without-removed-event".into(),
-                            format!("step {step} {op:?}: peer {pi} lost {vanished:?} silently; capacity overflow explains only {allowed}"),
-                        ));
-                    }
-                    stats.evict_record += vanished.len() as u64;
-                    for a in vanished {
-                        explicit.remove(&(*pi, a));
-                    }
-                }
-                None => {
-                    if !want.is_empty() {
-                        vanished_peers += 1;
-                        for a in want {
-                            explicit.remove(&(*pi, *a));
-                        }
-                    }
-                }
+        match res {
+            Err((sig, what)) => return Some((sig, format!("step {step} {op:?}: {what}"))),
+            Ok(o) => {
+                explicit = o.explicit;
+                stats.merge(&o.d);
             }
         }
-        for (pi, got) in &after {
-            if !running.contains_key(pi) && !got.is_empty() {
-                return Some(("address-appeared-without-added-event".into(), format!("step {step} {op:?}: peer {pi} appeared with {got:?} without events")));
-            }
-        }
-        if vanished_peers > peer_overflow {
-            return Some((
-                "peer-vanished-without-events".into(),
-                format!("step {step} {op:?}: {vanished_peers} peer record(s) with addresses disappeared silently; peer capacity overflow explains only {peer_overflow}"),
-            ));
-        }
-        stats.evict_peer += vanished_peers as u64;
 
         // ---- capacities
         for (pi, got) in &after {
-            if got.len() > w.record_cap {
-                return Some(("record-capacity-exceeded".into(), format!("step {step} {op:?}: peer {pi} holds {} addresses, record_capacity {}", got.len(), w.record_cap)));
+            if got.len() > w.record_cap && !soft.iter().any(|s| s.0 == "record-capacity-exceeded") {
+                soft.push(("record-capacity-exceeded".into(), format!("step {step} {op:?}: peer {pi} holds {} addresses, record_capacity {}", got.len(), w.record_cap), step + 1));
             }
         }
-        if after.len() > w.peer_cap {
-            return Some(("peer-capacity-exceeded".into(), format!("step {step} {op:?}: store holds {} peers, peer_capacity {}", after.len(), w.peer_cap)));
-        }
-
-        // ---- permanent addresses named by a failure and still there
-        if op.is_failure_event() && w.remove_on_err {
-            let named: Vec<(usize, usize)> = match op {
-                Op::Established { p, dialer: true, failed, .. } => failed.iter().map(|a| (*p, *a)).collect(),
-                Op::FailTransport { p: Some(p), addrs } => addrs.iter().map(|a| (*p, *a)).collect(),
-                Op::FailWrongPeer { p, a, .. } | Op::FailOther { p, a, kind: 0 } => vec![(*p, *a)],
-                _ => vec![],
-            };
-            for (p, a) in named {
-                if explicit.contains(&(p, a)) && after.get(&p).is_some_and(|s| s.contains(&a)) {
-                    stats.perm_survived += 1;
-                }
-            }
+        if after.len() > w.peer_cap && !soft.iter().any(|s| s.0 == "peer-capacity-exceeded") {
+            soft.push(("peer-capacity-exceeded".into(), format!("step {step} {op:?}: store holds {} peers, peer_capacity {}", after.len(), w.peer_cap), step + 1));
         }
         contents = after;
-        explicit.retain(|(p, a)| contents.get(p).is_some_and(|s| s.contains(a)));
     }
     None
 }
@@ -485,12 +553,16 @@ pub fn run(args: &Args) -> i32 {
         let ops: Vec<Op> = (0..len).map(|_| gen_op(rng, &w)).collect();
         let mut stats = Stats::default();
         let mut trace = vec![];
-        let res = catch(|| run_history(&w, &ops, &mut stats, &mut trace));
+        let mut soft = vec![];
+        let res = catch(|| run_history(&w, &ops, &mut stats, &mut trace, &mut soft));
         let mut sig = Sig::new().u64(w.record_cap as u64).u64(w.peer_cap as u64).u64(w.remove_on_err as u64);
         for op in &ops {
             sig.push_str(&format!("{op:?}"));
         }
         let witness = |upto: usize| json!({"world": world_json(&w), "ops": ops.iter().take(upto).map(|o| o.to_json()).collect::<Vec<_>>(), "trace_tail": trace.iter().rev().take(6).rev().cloned().collect::<Vec<_>>()});
+        for (s, what, upto) in soft {
+            check.violation(s, what, json!({"world": world_json(&w), "ops": ops.iter().take(upto).map(|o| o.to_json()).collect::<Vec<_>>()}));
+        }
         match res {
             Err(p) => check.violation(format!("panic@{}", p.site()), format!("panic: {}", p.msg), witness(trace.len() + 1)),
             Ok(Some((s, what))) => check.violation(s, what, witness(trace.len())),
@@ -508,6 +580,7 @@ pub fn run(args: &Args) -> i32 {
         check.count("explicit_removed", stats.explicit_removed);
         check.count("events_added", stats.added);
         check.count("events_removed", stats.removed);
+        check.count("steps_explained_by_eviction_while_over_capacity", stats.pre_evictions);
         if check.want_sample() && stats.auto_removed > 0 && stats.perm_survived > 0 {
             check.sample(json!({"world": world_json(&w), "first_ops": ops.iter().take(12).map(|o| o.to_json()).collect::<Vec<_>>(), "n_ops": ops.len(),
                 "auto_removed": stats.auto_removed, "perm_survived": stats.perm_survived, "evictions": stats.evict_record + stats.evict_peer}));
